@@ -249,8 +249,8 @@ class BaseData:
             "name": column["name"],
             "constraint_name": column.get("constraint_name"),
         }
-        self.prepare_ref_statement(ref_statement)
         alter_column["references"] = deepcopy(ref_statement)
+        self.prepare_ref_statement(alter_column["references"])
         alter_column["references"]["column"] = column_reference
         del alter_column["references"]["columns"]
         return alter_column
